@@ -318,3 +318,40 @@ ENTRIES = {
         "(fixed: 5a5cb46) are kept as MC negative control; '' re-written as '.' by the mmcif writer is the "
         'open known finding EmptyStringWrittenAsDot. ').strip()),
 }
+
+# Sentences appended to level_claimed.text after the checks were widened (seeded-change rounds, DESIGN 11.4)
+ADDENDA = {
+    "C01": "The converse direction also runs every bracket type alone and every ordered pair of types (nested and crossing).",
+    "C02": "Gen_StemFamily adds the stem-level family: every chord diagram of <= 4 (thorough 5) stems x a stem-length palette, and "
+           "stars in which one stem is crossed by 10-16 others (optimality by brute force where feasible, stability always).",
+    "C03": "Structure variants also include base-only residues, residues that differ only by insertion code, residues listed in two "
+           "blocks, and threshold probes at three scales (delta, delta/6, delta/60).",
+    "C04": "Same widened variants and three-scale probes as C03.",
+    "C05": "Presentation.tla also has InsertCodes (order-preserving renumbering that introduces insertion codes); some bases carry "
+           "unresolvable residue names so that base letters are detected from atoms; quick draws 140 behaviours.",
+    "C06": "Corpus variants with abasic nucleotides (base letter '?') are included.",
+    "C07": "The motif_extractor CLI is run plain and with --remove-isolated / --remove-pseudoknots in every combination; "
+           "Trace_Elements derives the structure the tool must print and decompose.",
+    "C08": "Every third PDB rendering numbers its records from just below 10000 (five-digit serials).",
+    "C09": "Tables also use a blank chain identifier (PDB -> PDB paths, modelled in MC_PdbText with a negative control for the repaired "
+           "TER column defect), model numbering from 0 and serials that end exactly at the limit (always through the splitter).",
+    "C10": "Also: a 99 984-atom table with interleaved chains (serials run out during renumbering), row selections made after parsing, "
+           "label_* names differing from the author names, and two-model files of which only one model exceeds the limits "
+           "(one trace case per model through splitter.main).",
+    "C11": "Synthetic placements include three donors of one base in contact with one phosphate; the C03 variants (insertion codes, "
+           "split residues, base-only residues) apply.",
+    "C12": "A tenth operation, convert_to_dot_bracket(None), is part of the specification and of every history family; every second "
+           "history runs after an unrelated sibling object (same pairs, other sequence and length) was solved in the same process; "
+           "structures with 5 and 6 mutually crossing stems are included.",
+    "C14": "Emission points v2_fit / v2_fit_write_pdb (the PDB text of a table that had to be fitted) are observed; alternate seeds meet "
+           "their inputs in the opposite order and twin inputs (same component names, complete / without bases) share an interpreter.",
+    "C16": "For corpus structures the list rendered by Mapping2D3D.all_dot_brackets and the BpSeq's own list asked afterwards are "
+           "validated too.",
+    "C17": "CLI results are judged on an independent reading of the input file; generated mmCIF carries entity tables and nucleotide "
+           "ligands in a non-polymer entity; the pair family has a distance class zero (coincident atoms) and residues N / N^A.",
+    "C18": "Trace kind 'stem' binds the inter-stem torsion of Mapping2D3D.calculate_inter_stem_parameters (closest endpoints, IUPAC "
+           "dihedral of the documented centroids, swapping the stems keeps the value); clauses SameAtomsBothPaths, "
+           "ChiOnlyFromGlycosidicAtoms and TableRowPerResidue; quick corpus includes 1ehz, 4qln.pdb, 2HY9 and atom-drop variants.",
+    "C20": "The CLI is also run in place (output path = input path; MC_CifEdit models it, variant CliOpensOutputFirst is a negative "
+           "control); documents with several data blocks and mixed-case data names are generated.",
+}
